@@ -17,6 +17,9 @@ CLAUSE = CLAUSE + (" In generate_pes_packet, once raw_samples_left was set from 
                    "multiplexer stays usable; on the demultiplexer side every constant offset read through the header pointer in "
                    "the PES header validation is below the look-ahead the wrap-around buffer guarantees (PES_HEADER_LOOKAHEAD), "
                    "so a header split across input chunks is judged on bytes that have arrived.")
+CLAUSE = CLAUSE + (" (RF-DEP, path-sensitive zero-ness valuations) in demux_ts_packet every copy that may bring ts_pes_todo to zero "
+                   "(PES packet complete) is followed by the header examination or an explicit discard before the collecting cursor is "
+                   "rewound for the next PES packet - also when the whole TS packet was already in the synchronisation buffer.")
 NOT_DECIDED = ("PES/TS header layout, PTS encoding, size rounding to 184 and stuffing arithmetic, that demux (mux (x)) == x as values, "
                "conformance to EN 300 472 / EN 301 775 beyond the table.")
 
@@ -70,6 +73,9 @@ def run(ctx, run):
     _raw_left_consistent(ctx, run, P.need("generate_pes_packet", MUX))
     _header_lookahead(ctx, run)
     _rejection_traceless(ctx, run, P.need("vbi_dvb_mux_feed", MUX))
+    # TS round trip: a completed PES packet is examined on every path (rule shared with C07)
+    from . import C07
+    C07._complete_packet_examined(ctx, run, P.need("demux_ts_packet", DEMUX))
 
 
 def _store_idx(f, lhs, base_name):
